@@ -1,86 +1,87 @@
+//! lsim — deterministic whole-database simulator for LocustDB (see /verif/DESIGN.md).
+mod coord;
+mod env;
+mod exec;
+mod exec_more;
+mod gen;
+mod model;
+mod plan;
+mod props;
 mod sched;
 mod sim;
+mod sql;
+mod wire;
 
-use locustdb::{LocustDB, Options};
-use locustdb_serialization::event_buffer::{ColumnBuffer, ColumnData, EventBuffer, TableBuffer};
-use locustdb_simrt as rt;
-use std::collections::HashMap;
-use std::sync::Arc;
+use plan::*;
+use std::collections::BTreeMap;
 
-fn batch(table: &str, start: i64, n: i64) -> EventBuffer {
-    let mut cols = HashMap::new();
-    cols.insert("id".to_string(), ColumnBuffer { data: ColumnData::I64((start..start + n).collect()) });
-    cols.insert("f".to_string(), ColumnBuffer { data: ColumnData::Dense((start..start + n).map(|x| x as f64 * 0.5).collect()) });
-    cols.insert("s".to_string(), ColumnBuffer { data: ColumnData::String((start..start + n).map(|x| format!("s{}", x % 3)).collect()) });
-    EventBuffer { tables: HashMap::from([(table.to_string(), TableBuffer::new(cols))]) }
+fn arg<'a>(args: &'a [String], name: &str) -> Option<&'a str> {
+    args.iter().position(|a| a == name).and_then(|i| args.get(i + 1)).map(|s| s.as_str())
+}
+fn arg_u64(args: &[String], name: &str, default: u64) -> u64 {
+    arg(args, name).map(|s| s.parse().unwrap_or_else(|_| panic!("bad value for {name}"))).unwrap_or(default)
 }
 
-fn smoke() {
-    rt::fs::add_root("/sim/r0");
-    let opts = Options {
-        threads: 2,
-        read_threads: 2,
-        db_path: Some("/sim/r0".into()),
-        metrics_table_name: None,
-        partition_combine_factor: 1,
-        io_threads: 1,
-        ..Options::default()
-    };
-    let mut total = 0;
-    {
-        let db = Arc::new(LocustDB::new(&opts));
-        for i in 0..3 {
-            rt::block_on(db.ingest_efficient(batch("t", total, 5 + i)));
-            total += 5 + i;
-            if i == 1 {
-                db.force_flush();
-            }
-        }
-        let db2 = db.clone();
-        let q = rt::thread::spawn_harness("q", move || {
-            let r = rt::block_on(db2.run_query("SELECT id, f, s FROM t", false, true, vec![])).unwrap();
-            r.rows.unwrap().len()
-        });
-        db.force_flush();
-        let _n = q.join().unwrap();
-        let r = rt::block_on(db.run_query("SELECT id FROM t", false, true, vec![])).unwrap();
-        assert_eq!(r.rows.unwrap().len(), total as usize);
-        drop(db);
-        rt::thread::wait_db_quiescent();
-    }
-    {
-        let db = Arc::new(LocustDB::new(&opts));
-        let r = rt::block_on(db.run_query("SELECT id FROM t", false, true, vec![])).unwrap();
-        assert_eq!(r.rows.unwrap().len(), total as usize);
-        drop(db);
-        rt::thread::wait_db_quiescent();
-    }
+/// Every worker process first executes the same fixed plan, so that process-global lazily
+/// initialised state (hash seeds of dependencies, lazy statics, regex caches) is identical in
+/// every process whatever it runs afterwards.
+pub fn warm_up() {
+    let plan = props::gen_plan("C08", 0x57A2_7000);
+    let _ = props::run_plan(&plan);
 }
 
 fn main() {
     let args: Vec<String> = std::env::args().collect();
-    let seed: u64 = args.get(1).map(|s| s.parse().unwrap()).unwrap_or(1);
-    let n: u64 = args.get(2).map(|s| s.parse().unwrap()).unwrap_or(1);
-    let t0 = std::time::Instant::now();
-    for i in 0..n {
-        let mut rng = rt::core::Rng::new(seed + i);
-        let spec = sched::SchedSpec::generate(&mut rng);
-        let rep = sim::run_sim(seed + i, &spec, sim::DEFAULT_MAX_STEPS, false, smoke);
-        if n <= 4 || rep.end != sim::EndState::Completed {
-            println!(
-                "seed={} kind={} end={:?} steps={} sp={} switches={} timers={} idle={} sim_s={:.1} events={} hash={:016x} panics={} fs_effects={}",
-                seed + i, spec.kind, rep.end, rep.steps, rep.sched_points, rep.ctx_switches, rep.timers_fired, rep.idle_firings,
-                rep.sim_ns as f64 / 1e9, rep.ctx.events.len(), rep.event_hash, rep.ctx.panics.len(), rt::fs::effects_len()
-            );
-            for p in &rep.ctx.panics {
-                println!("  panic: {} {} {}", p.role, p.location, p.message);
+    let cmd = args.get(1).map(|s| s.as_str()).unwrap_or("help");
+    match cmd {
+        "worker" => {
+            warm_up();
+            coord::worker_main(&args);
+        }
+        "check" => std::process::exit(coord::check_main(&args)),
+        "replay" => {
+            warm_up();
+            std::process::exit(coord::replay_main(&args));
+        }
+        "selftest-determinism" => std::process::exit(coord::selftest_determinism(&args)),
+        "hashes" => {
+            warm_up();
+            coord::hashes_main(&args);
+        }
+        "one" => {
+            warm_up();
+            let prop = arg(&args, "--prop").expect("--prop");
+            let seed = arg_u64(&args, "--seed", 1);
+            let index = arg_u64(&args, "--index", 0);
+            let plan = props::gen_plan(prop, props::mix_seed(seed, prop, index));
+            if args.iter().any(|a| a == "--plan") {
+                println!("{}", serde_json::to_string_pretty(&plan).unwrap());
+            }
+            let t0 = std::time::Instant::now();
+            let r = props::run_plan(&plan);
+            println!("ops: {:?}", plan.ops.iter().map(exec::op_name).collect::<Vec<_>>());
+            println!("opts: {:?}", plan.opts);
+            println!("sched: {:?}", plan.sched);
+            println!("stats: steps={} sp={} switches={} timers={} sim_s={:.1} fs_effects={} events={} hash={:016x} end={} wall={:?}", r.stats.steps, r.stats.sched_points, r.stats.ctx_switches, r.stats.timers_fired, r.stats.sim_ns as f64 / 1e9, r.stats.fs_effects, r.stats.events, r.stats.event_hash, r.stats.end, t0.elapsed());
+            let c: BTreeMap<_, _> = r.stats.counters.iter().collect();
+            println!("counters: {:?}", c);
+            for v in &r.violations {
+                println!("VIOLATION class={} :: {}", v.class, v.detail);
             }
         }
-        if std::env::var("LSIM_DUMP").is_ok() {
-            for e in &rep.ctx.events {
-                println!("  {:5} t{:<3} {:>12} {:12} {}", e.seq, e.task, e.t_ns, e.kind, e.detail);
-            }
+        _ => {
+            eprintln!("usage: lsim check|worker|replay|selftest-determinism|one ...");
+            std::process::exit(2);
         }
     }
-    println!("{} runs in {:?}", n, t0.elapsed());
 }
+
+pub fn cli_arg<'a>(args: &'a [String], name: &str) -> Option<&'a str> {
+    arg(args, name)
+}
+pub fn cli_u64(args: &[String], name: &str, default: u64) -> u64 {
+    arg_u64(args, name, default)
+}
+
+#[allow(dead_code)]
+fn _unused(_: RunResult) {}
